@@ -545,7 +545,20 @@ def find_fn(src, name, within=None):
         if not m:
             raise Unsupported("impl %s not found" % within)
         src = src[m.end() - 1:balanced(src, m.end() - 1)]
-    ms = list(re.finditer(r"\bfn\s+%s\s*(?:<[^>]*>)?\s*\(" % re.escape(name), src))
+    ms = []
+    for m0 in re.finditer(r"\bfn\s+%s\s*(?=[<(])" % re.escape(name), src):
+        j0 = m0.end()
+        if src[j0] == "<":                   # generic parameters, possibly nested (`T: for<'de> Deserialize<'de>`)
+            d0 = 0
+            while True:
+                d0 += src[j0] == "<"
+                d0 -= src[j0] == ">" and src[j0 - 1] != "-"
+                j0 += 1
+                if d0 == 0:
+                    break
+        m1 = re.compile(r"\s*\(").match(src, j0)
+        if m1:
+            ms.append(m1)
     if len(ms) != 1:
         raise Unsupported("fn %s: %d definitions found" % (name, len(ms)))
     m = ms[0]
